@@ -117,6 +117,15 @@ func RunShard(a shardArgs) int {
 		defer t.Stop()
 		var ms runtime.MemStats
 		tick := 0
+		// A case that is blocked for good (a deadlock) burns no CPU, so the cost budget never fires. It is recognised
+		// by the absence of progress: the process has consumed less than a quarter of a CPU second over stallTicks
+		// consecutive watchdog ticks of one case. Ticks are counted, not wall time read, so a frozen sandbox (no
+		// ticks at all) does not count as a stall.
+		stallTicks := 300 // 60 s of 200 ms ticks
+		if a.CPUMul > 0 {
+			stallTicks = 750 // re-run alone: 150 s
+		}
+		stallCase, stalled, stallBase := -2, 0, 0.0
 		for {
 			select {
 			case <-stop:
@@ -127,11 +136,18 @@ func RunShard(a shardArgs) int {
 			k, st := curCase, caseStartCPU
 			wmu.Unlock()
 			if k < 0 {
+				stallCase = -2
 				continue
 			}
 			why := ""
-			if cpuSeconds()-st > budget {
+			now := cpuSeconds()
+			if now-st > budget {
 				why = "cpu"
+			}
+			if k != stallCase || now-stallBase >= 0.25 {
+				stallCase, stalled, stallBase = k, 0, now
+			} else if stalled++; stalled >= stallTicks {
+				why = "blocked"
 			}
 			tick++
 			if tick%5 == 0 && !a.Race {
@@ -217,6 +233,21 @@ type ParentCtx struct {
 }
 
 func (p *ParentCtx) Thorough() bool { return p.Tier == "thorough" }
+
+var hangMu sync.Mutex
+var hangConfirmed = map[string]bool{}
+
+func (p *ParentCtx) confirmedHang(sig string) bool {
+	hangMu.Lock()
+	defer hangMu.Unlock()
+	return hangConfirmed[sig]
+}
+
+func (p *ParentCtx) confirmHang(sig string) {
+	hangMu.Lock()
+	hangConfirmed[sig] = true
+	hangMu.Unlock()
+}
 func (p *ParentCtx) Inconclusive(reason string) {
 	p.mu.Lock()
 	p.Incon = append(p.Incon, reason)
@@ -325,6 +356,7 @@ func supervise(pc *ParentCtx, race bool, shard, n int, out *ShardResult, mu *syn
 		exe = pc.RaceExe
 	}
 	from := 0
+	blocked := 0
 	tag := fmt.Sprintf("%s-%d", map[bool]string{false: "plain", true: "race"}[race], shard)
 	for attempt := 0; attempt < 200; attempt++ {
 		outF := filepath.Join(pc.Scratch, tag+".json")
@@ -379,8 +411,16 @@ func supervise(pc *ParentCtx, race bool, shard, n int, out *ShardResult, mu *syn
 			}
 			_, known := pc.Known.Lookup(p.ID, sig)
 			ok := false
-			if !known {
+			// a signature that a re-run alone has already confirmed in this run is not re-run again (a change that
+			// blocks one case blocks many; every further case would cost minutes)
+			if !known && !pc.confirmedHang(sig) {
 				ok = rerunAlone(pc, exe, race, k, 10)
+				if !ok {
+					pc.confirmHang(sig)
+				}
+			}
+			if r.Abort == "blocked" {
+				blocked++
 			}
 			if !ok && p.CrashInconclusive {
 				pc.Inconclusive(fmt.Sprintf("case %d exceeded the %s budget (totality is not this property's subject): %s", k, r.Abort, tailFile(errF, 400)))
@@ -389,7 +429,7 @@ func supervise(pc *ParentCtx, race bool, shard, n int, out *ShardResult, mu *syn
 			mu.Lock()
 			if !ok {
 				out.Violations = append(out.Violations, Violation{Prop: p.ID, Sig: sig, Case: k,
-					Msg:    fmt.Sprintf("case %d exceeded the %s budget (logical cost, not wall time; re-run alone with 10x margin unless the cause is a listed known finding)", k, r.Abort),
+					Msg:    fmt.Sprintf("case %d exceeded the %s budget (cpu/heap: logical cost, not wall time; blocked: no CPU consumed over 300 consecutive watchdog ticks (750 when re-run alone), i.e. every goroutine of the case waits; re-run alone with a larger margin unless the cause is a listed known finding)", k, r.Abort),
 					Detail: tailFile(errF, 4000)})
 				out.Cover["violations:"+sig]++
 			} else {
@@ -418,6 +458,13 @@ func supervise(pc *ParentCtx, race bool, shard, n int, out *ShardResult, mu *syn
 			mu.Unlock()
 		}
 		from = k + 1
+		if blocked >= 3 {
+			// three blocked cases are reported; the rest of this shard's cases are not run (each would wait again)
+			mu.Lock()
+			out.Cover["shard-stopped-after-three-blocked-cases"]++
+			mu.Unlock()
+			return
+		}
 	}
 	pc.Inconclusive("shard " + tag + " restarted too often")
 }
